@@ -621,6 +621,8 @@ int main(int argc, char** argv)
       // several threads print a usage at the same time; the handler asks the library-internal Groups singleton whether it is
       // evaluated by a group - every case starts without that object, so the threads race for its creation
       const bool usageCase = !envCase && r.chance(1, 3), endCase = r.chance(1, 2);
+      const bool sameKindCase = !envCase && !usageCase && r.chance(1, 2);
+      const int sameKind = (int)r.below(NKINDS);
       celma::prog_args::Groups::reset();
       uint64_t h = vh::hash_u64(T, vh::hash_u64(level));
       for (unsigned t = 0; t < T; ++t)
@@ -631,6 +633,8 @@ int main(int argc, char** argv)
          if (t < 2 && r.chance(1, 2)) kind = (t == 0) ? K_VEC_INT : K_VEC_STR;
          if (envCase && t < 3) kind = fileCase ? K_ARGFILE : K_ENVVAR;
          if (usageCase && t < 4) kind = endCase ? K_ENDVALUES : K_USAGE;
+         // several threads inside the same part of the library at the same time (a function-local static there shows only then)
+         if (sameKindCase && t < 4) kind = sameKind;
          ws[t].sc = makeScenario(r, kind, s0 + (int)t);
          if (kind == K_ARGFILE && envCase)
          {
